@@ -1,4 +1,4 @@
-// GENERATED on every run by /verif/tools/extract.py from /repo/visitor/src/lib.rs (sha256 515b85b7ca774c0c).  DO NOT EDIT.
+// GENERATED on every run by /verif/tools/extract.py from /repo/visitor/src/lib.rs (sha256 a4d7fca4d69848c5).  DO NOT EDIT.
 // Each method body below is a region of `VueJsxTransformVisitor::transform_attrs`, copied byte for byte between the
 // BEGIN/END markers; the lines outside the markers only move the enclosing function's locals in and out.
 #![allow(unused_mut, unused_variables, unused_assignments, dead_code, clippy::all)]
@@ -235,10 +235,10 @@ where
                                     ..
                                 }) => Box::new(Expr::JSXEmpty(*expr)),
                                 JSXAttrValue::JSXElement(element) => {
-                                    Box::new(Expr::JSXElement(element.clone()))
+                                    Box::new(self.transform_jsx_element(element))
                                 }
                                 JSXAttrValue::JSXFragment(fragment) => {
-                                    Box::new(Expr::JSXFragment(fragment.clone()))
+                                    Box::new(self.transform_jsx_fragment(fragment))
                                 }
                             })
                             .unwrap_or_else(|| {
@@ -269,6 +269,8 @@ where
                                 "class" if !is_component => has_class_binding = true,
                                 "style" if !is_component => has_style_binding = true,
                                 "key" | "on" | "ref" => {}
+                                // merged through the `transformOn` helper below, not a prop of that name
+                                "nativeOn" if self.options.transform_on => {}
                                 _ => {
                                     dynamic_props.insert(attr_name.clone());
                                 }
